@@ -366,17 +366,24 @@ class _Timeout(BaseException):
     pass
 
 
+def _blown(e):
+    """a MemoryError after the process really grew (high-water mark above 400 MiB) is a memory blow-up; a MemoryError
+    raised up front by a decoder that refuses an absurd request is an ordinary error: the read fails cleanly"""
+    import resource
+    return isinstance(e, MemoryError) and resource.getrusage(resource.RUSAGE_SELF).ru_maxrss > 400 * 1024
+
+
 def probe_image(img, pw, tmp, want_path):
     import py7zr
     from harness import arch
     out = {}
     try:
         z = py7zr.SevenZipFile(io.BytesIO(img), "r", password=pw)
-    except MemoryError:
-        return {"fatal": "memory"}
     except _Timeout:
         raise
     except BaseException as e:  # noqa
+        if _blown(e):
+            return {"fatal": "memory"}
         out["open"] = _err(e)
         return out
     out["open"] = "ok"
@@ -385,11 +392,11 @@ def probe_image(img, pw, tmp, want_path):
         out["names"] = z.getnames()
         z.extractall(factory=fac)
         out["extract"] = ["ok", _digest(fac.as_list())]
-    except MemoryError:
-        return {"fatal": "memory"}
     except _Timeout:
         raise
     except BaseException as e:  # noqa
+        if _blown(e):
+            return {"fatal": "memory"}
         out["extract"] = ["err"] + _err(e)
     finally:
         try:
@@ -406,11 +413,11 @@ def probe_image(img, pw, tmp, want_path):
     # extracted to a directory (several folders: py7zr then uses one thread per folder), else from memory
     try:
         z = py7zr.SevenZipFile(path if want_path else io.BytesIO(img), "r", password=pw)
-    except MemoryError:
-        return {"fatal": "memory"}
     except _Timeout:
         raise
     except BaseException as e:  # noqa
+        if _blown(e):
+            return {"fatal": "memory"}
         out["test"] = out["testzip"] = ["err"] + _err(e)
         z = None
     if z is not None:
@@ -419,11 +426,11 @@ def probe_image(img, pw, tmp, want_path):
                 try:
                     v = getattr(z, call)()
                     out[call] = ["ok", v]
-                except MemoryError:
-                    return {"fatal": "memory"}
                 except _Timeout:
                     raise
                 except BaseException as e:  # noqa
+                    if _blown(e):
+                        return {"fatal": "memory"}
                     out[call] = ["err"] + _err(e)
         finally:
             try:
@@ -439,11 +446,11 @@ def probe_image(img, pw, tmp, want_path):
             with py7zr.SevenZipFile(path, "r", password=pw) as z:
                 z.extractall(dest)
             out["extract_path"] = ["ok", _tree(dest)]
-        except MemoryError:
-            return {"fatal": "memory"}
         except _Timeout:
             raise
         except BaseException as e:  # noqa
+            if _blown(e):
+                return {"fatal": "memory"}
             out["extract_path"] = ["err"] + _err(e)
     return out
 
@@ -737,7 +744,7 @@ def explore(ctx):
         redo = {}
         for si, rs in results.items():
             for idx, (m, o) in enumerate(rs):
-                if o.get("fatal") in ("hang", "crash", "skipped") or str(o.get("fatal", "")).startswith("batch-"):
+                if o.get("fatal") in ("hang", "crash", "skipped", "memory") or str(o.get("fatal", "")).startswith("batch-"):
                     redo.setdefault(si, []).append(idx)
         jobs2 = []
         for si, idxs in redo.items():
@@ -750,7 +757,7 @@ def explore(ctx):
 
         def run_job2(j):
             si, idxs = j
-            _, outs = run_job((si, [results[si][i][0] for i in idxs]), mode="fork", tmo=(3.0 if tier == "quick" else 6.0) if info[si]["pw"] is None else 30.0)
+            _, outs = run_job((si, [results[si][i][0] for i in idxs]), mode="fork", tmo=(10.0 if tier == "quick" else 15.0) if info[si]["pw"] is None else 30.0)
             return si, idxs, outs
         for si, idxs, outs in ex.map(run_job2, jobs2):
             for i, o in zip(idxs, outs):
@@ -931,12 +938,14 @@ class _FakeDecomp:
         self.i = 0
         self.crc = 0x1234 if script[0] == "foldercrc" else None
         self.digest = 0
+        self.consumed = 0            # packed bytes taken so far: grows on every call, an empty chunk is not a stall
 
     def decompress(self, fp, max_length=-1):
         if self.script[0] == "err":
             raise self.script[1]("scripted decoder error")
         c = self.script[1][self.i]
         self.i += 1
+        self.consumed += 1
         return c
 
     def check_crc(self):
@@ -1185,11 +1194,10 @@ def corr_test(ctx, rng):
         if rng.random() < 0.15 and body:
             body = body[:rng.randrange(len(body))]          # truncated file: short reads
         defs = [rng.random() < 0.7 for _ in range(k)]
-        crcs, pos = [], packpos
+        crcs, pos = [], packpos                           # one entry per stream, 0 where undefined (PackInfo._read)
         for d, sz in zip(defs, sizes):
-            if d:
-                c = zlib.crc32(body[pos:pos + sz])
-                crcs.append(c ^ (0x400 if rng.random() < 0.12 else 0))
+            c = zlib.crc32(body[pos:pos + sz]) if d else 0
+            crcs.append(c ^ (0x400 if d and rng.random() < 0.12 else 0))
             pos += sz
         if rng.random() < 0.08 and crcs:
             crcs.pop()
